@@ -5,7 +5,7 @@ import random
 
 import numpy as np
 
-from ..probes import Clock, Models, Losses, make_names
+from ..probes import Clock, Models, Losses, make_names, InjectedFault
 from ..harness import storage_proxy
 
 SHARDS = {"quick": 1, "thorough": 8}
@@ -47,6 +47,8 @@ def build(cls_name, model, loss, names, overrides, clock, rnd):
             kw["interval_length"] = overrides.get("interval", 2)
             kw["storage_length"] = overrides.get("window", 3)
     if cls_name == "IncrementalSage":
+        if overrides and overrides.get("lbib"):
+            kw["loss_bigger_is_better"] = True      # a documented option: only the reported model / marginal loss are shifted
         return IncrementalSage(model, loss, names, **kw), st
     if cls_name == "IncrementalPFI":
         return IncrementalPFI(model, loss, names, **kw), st
@@ -88,7 +90,7 @@ def main(run):
             if use_over:
                 overrides = {"n_inner": rnd.choice([1, 2, 3]), "alpha": rnd.choice([0.001, 0.3, 1.0]), "dyn": rnd.random() < .5,
                              "storage": True, "interval": rnd.choice([1, 2, 3]), "window": rnd.choice([2, 4]),
-                             "own_imputer": rnd.choice([False, True, "separate"])}
+                             "own_imputer": rnd.choice([False, True, "separate"]), "lbib": rnd.random() < .35}
             seed = rnd.randrange(2 ** 31)
             random.seed(seed)
             np.random.seed(seed)
@@ -106,6 +108,9 @@ def main(run):
             explained = 0
             manual_first = incremental and st is not None and rnd.random() < 0.4    # user-managed storage: first call flagged off
             ncalls = 7 if rnd.random() > 0.03 else 300          # a few long histories (counters beyond 256, default storage filling up)
+            if incremental and d == 5 and nk == "str" and not use_over and rep == 0:
+                ncalls = 1500       # one long history per incremental explainer in every run (events that occur once in hundreds of calls)
+                run.count("long-histories")
             for t in range(ncalls):
                 x = {f: 1000 * (t + 1) + j for j, f in enumerate(names)}
                 if t < 3 and cls_name.startswith("Incremental") and model.kind != "linear" and rep % 2 == 1:
@@ -120,6 +125,11 @@ def main(run):
                         run.other_error(f"second-explainer-construct:{type(ex).__name__}")
                 x0, y0 = copy.deepcopy(x), copy.deepcopy(y)
                 kw = {}
+                if incremental and t in (2, 5) and rnd.random() < 0.25:
+                    # the user re-assigns the public attribute between two observations: later calls use the new value
+                    n_ctor = rnd.choice([1, 2, 3])
+                    e.n_inner_samples = n_ctor
+                    run.count("attribute-reassigned-histories")
                 if t > 0 and rnd.random() < 0.3:
                     kw["n_inner_samples"] = rnd.choice([1, 2, 4])
                 if incremental and ((t > 0 and rnd.random() < 0.3) or (t == 0 and manual_first)):
@@ -127,6 +137,19 @@ def main(run):
                 if not incremental:
                     kw["verbose"] = False
                 n_used = kw.get("n_inner_samples") or n_ctor
+                if incremental and t in (1, 3) and rnd.random() < 0.2:
+                    # HISTORY: one call fails inside a callback (a transient model / loss fault), the caller catches it and carries on;
+                    # every later call is judged like any other (budget, storage update, keys)
+                    clock.fail_at_next = rnd.randrange(1, 2 + d * n_used)
+                    clock.reset()
+                    try:
+                        e.explain_one(copy.deepcopy(x), y, **kw)
+                    except InjectedFault:
+                        run.count("failed-call-histories")
+                    except Exception as ex:
+                        run.violation(f"call-raises:{cls_name}", f"{tag} call {t}: injected fault surfaced as {type(ex).__name__}: {ex}", {**replay, "call": t})
+                        break
+                    clock.fail_at = None
                 seen0 = getattr(e, "seen_samples", None)
                 clock.reset()
                 creplay = {**replay, "call": t, "kwargs": kw}
